@@ -52,11 +52,14 @@ structure Cfg where
   resample : Bool            -- `actuator.interval != "1min"` (after `_check_backtest` normalised it)
 deriving Repr, Inhabited
 
-/-- an operation a hook issues: on which market, whether the market's own logic accepts it, a label -/
+/-- an operation a hook issues: on which market, whether the market's own logic accepts it, a label, and whether the method
+    is a `write_func` (gated by `is_open`, sets `has_update`: add/remove liquidity, supply, borrow, option trades, …) or not
+    (e.g. `UniLpMarket.buy/sell`: recorded like any operation, but neither gated nor followed by a second refresh) -/
 structure OpSpec where
   m : Nat
   ok : Bool
   tag : String
+  gated : Bool := true
 deriving Repr, Inhabited, DecidableEq
 
 /-- the scripted strategy: what each hook does on each bar (row id); `upd`: what `update()` of a market records -/
@@ -85,6 +88,7 @@ inductive Ev
   | after (ts : Int) (row : Nat) (price : Option Int)
   | opOk (ts : Int) (h : Hook) (m : Nat) (tag : String)
   | opRej (ts : Int) (h : Hook) (m : Nat) (tag : String) (closed : Bool)
+  | opFree (ts : Int) (h : Hook) (m : Nat) (tag : String) (ok : Bool)            -- an operation that is not a `write_func`
   | row (ts : Int) (price : Option Int)
   | notify (ts : Int) (tag : String) (stamp : Int) (m : Nat)
   | finalize (ts : Int)
@@ -124,7 +128,12 @@ def doOp (ts : Int) (h : Hook) (op : OpSpec) (st : St) : List Ev × St :=
   match st.ms[op.m]? with
   | none => ([], st)
   | some ms =>
-    if !ms.isOpen then ([.opRej ts h op.m op.tag true], st)            -- DemeterError("… is not open.")
+    if !op.gated then
+      if op.ok then
+        ([.opFree ts h op.m op.tag true],
+         { st with cur := st.cur ++ [⟨op.tag, ts, op.m⟩], all := st.all ++ [⟨op.tag, ts, op.m⟩] })
+      else ([.opFree ts h op.m op.tag false], st)
+    else if !ms.isOpen then ([.opRej ts h op.m op.tag true], st)       -- DemeterError("… is not open.")
     else if !op.ok then ([.opRej ts h op.m op.tag false], st)          -- the market raises; nothing recorded, flag untouched
     else ([.opOk ts h op.m op.tag],
           { st with ms := st.ms.set op.m { ms with hasUpdate := true },
@@ -311,7 +320,7 @@ def run (cfg : Cfg) (trigs : List Trig) (sc : Script) : RunResult :=
 /-- timestamp of an event -/
 def Ev.ts : Ev → Option Int
   | .set ts .. | .initialize ts | .before ts .. | .fire ts .. | .openCb ts .. | .on ts .. | .update ts .. | .uact ts ..
-  | .after ts .. | .opOk ts .. | .opRej ts .. | .row ts .. | .notify ts .. | .finalize ts => some ts
+  | .after ts .. | .opOk ts .. | .opRej ts .. | .opFree ts .. | .row ts .. | .notify ts .. | .finalize ts => some ts
   | .raised _ => none
 
 def Hook.phase : Hook → Nat
@@ -333,6 +342,7 @@ def Ev.phase : Ev → Nat
   | .after .. => 12
   | .opOk _ h _ _ => h.phase
   | .opRej _ h _ _ _ => h.phase
+  | .opFree _ h _ _ _ => h.phase
   | .row .. => 14
   | .notify .. => 15
   | .finalize _ => 16
